@@ -69,13 +69,13 @@ package heap
 // positions are in heap order afterwards; positions that are no ancestors of j0 are untouched.
 //@ func (*Heap).up
 //@   functype Heap.Less pure
-//@   requires h != nil && swo(h) && 0 <= j && j < len(h.Slice)
+//@   requires h != nil && swo(h) && 0 <= j && (j < len(h.Slice) || j == 0)
 //@   ensures [C11.up.order] forall m int :: bnd(m) && old(upPre(h, j, m)) ==> heapOK(h, m)
 //@   ensures [C11.up.from~mv]  forall k int :: 0 <= k && k <= j ==> exists l int :: 0 <= l && l <= j && h.Slice[k] == old(h.Slice[l])
 //@   ensures [C11.up.nodup~nd] old(noDup(h, len(h.Slice))) ==> noDup(h, len(h.Slice))
 //@   ensures [C11.up.frame] sameSlice(h.Slice, old(h.Slice)) && h.Less == old(h.Less) && forall k int :: j < k && k < len(h.Slice) ==> h.Slice[k] == old(h.Slice[k])
 //@   modifies elems(h.Slice)
-//@   loop 0 invariant 0 <= j && j <= j0 && j < len(h.Slice) && sameSlice(h.Slice, old(h.Slice)) && h.Less == old(h.Less)
+//@   loop 0 invariant 0 <= j && j <= j0 && (j < len(h.Slice) || j == 0) && sameSlice(h.Slice, old(h.Slice)) && h.Less == old(h.Less)
 //@   loop 0 invariant forall m int :: bnd(m) && old(upPre(h, j0, m)) ==> upPre(h, j, m)
 //@   loop 0 invariant forall k int :: j0 < k && k < len(h.Slice) ==> h.Slice[k] == old(h.Slice[k])
 //@   loop 0 invariant [nodup~nd] old(noDup(h, len(h.Slice))) ==> noDup(h, len(h.Slice))
